@@ -3,8 +3,9 @@
    Proofs/OciProofs.v and followed by Print Assumptions. Constants, tables and
    the append-offset arithmetic are the ones goextract read from /repo on this
    run (Generated/C12Oci.v). *)
-From Apko Require Import Base.Prelude Base.C12Lib Generated.C12Oci Model.Oci Spec.OciSpec
-  Proofs.OciProofs Proofs.OciScanProofs.
+From Apko Require Import Base.Prelude Base.C12Lib Generated.C12Oci Model.Oci Model.OciTime Model.OciShlex Model.OciImage
+  Spec.OciSpec Spec.OciTimeSpec Spec.OciShlexSpec Spec.OciImageSpec
+  Proofs.OciProofs Proofs.OciScanProofs Proofs.OciTimeProofs Proofs.OciShlexProofs Proofs.OciImageProofs.
 From Coq Require Import Permutation Sorted.
 Open Scope string_scope. Open Scope list_scope.
 
@@ -25,37 +26,78 @@ Print Assumptions c12_append_offset.
 Example c12_append_offset_on_boundary : append_offset 1536 512 = 2048%Z /\ append_offset 1536 511 = 2048%Z /\ append_offset 1536 513 = 2560%Z.
 Proof. vm_compute. auto. Qed.
 
-(* The scan loop that produces [pos] and [size], over an abstract tar stream.  For
-   EVERY list of members (any number, any count of header blocks - PAX / GNU
-   extension headers included -, any sizes) followed by the end-of-archive marker,
-   the header scan loop of BuildIndex (its statements translated by goextract:
-   scan_body; the reader sits unbuffered on the file, the position after Next() is
-   the end of the header blocks, data is skipped lazily; the file is rewound first:
-   scan_rewinds) followed by the translated arithmetic yields exactly the offset of
-   the first end-of-archive block: the appended members continue the archive, no
-   byte of a member is overwritten and no zero block is left in between.  The scan
-   never fails, panics (hdr is never nil where hdr.Size is read) or runs out of fuel. *)
-Theorem c12_append_offset_scan : forall ms,
-  Forall (fun m => (1 <= m_hdr m)%Z /\ (0 <= m_size m)%Z) ms ->
-  scan_offset ms = Ok (stream_len ms) /\ scan_rewinds = true.
-Proof. intros ms W. exact (conj (scan_offset_is_end_of_archive ms W) eq_refl). Qed.
+(* The scan loop that produces [pos] and [size], over a tar stream of raw header records,
+   with archive/tar's position bookkeeping per record kind INSIDE the model (rd_next:
+   member with data / header-only member / PAX-x, GNU-L, GNU-K extension record whose data
+   the reader consumes itself before it loops / PAX global header returned as an entry of
+   its own; the reader sits unbuffered on the file).
+
+   c12_reader_position: for EVERY stream of records archive/tar accepts, the file offset
+   observed after the i-th successful Next() and the size it reports are the start of the
+   i-th member's body and its size field, as given by the layout alone (body_starts:
+   extension records and their padded data in front of a member are skipped, a global
+   header counts as consumed).  This is the statement the previous version of
+   c12_append_offset_scan took as part of its model of Next().
+
+   c12_append_offset_scan: hence, for every such stream whose last record is a member whose
+   data section is what hdr.Size says (EndsOk: not a dangling extension header, not a
+   header-only type with a non-zero size field - MultiWrite writes regular files only),
+   the header scan loop of BuildIndex (its statements translated by goextract: scan_body;
+   the file is rewound first: scan_rewinds) followed by the translated arithmetic yields
+   exactly the offset of the first end-of-archive block: the appended members continue the
+   archive, no byte of a member is overwritten and no zero block is left in between.  The
+   scan never fails, panics (hdr is never nil where hdr.Size is read) or runs out of fuel. *)
+Theorem c12_reader_position : forall rs, Forall RawOk rs -> reader_trace rs = body_starts 0 rs.
+Proof. exact reader_trace_spec. Qed.
+Print Assumptions c12_reader_position.
+
+Theorem c12_append_offset_scan : forall rs, Forall RawOk rs -> EndsOk rs ->
+  scan_offset rs = Ok (stream_len rs) /\ scan_rewinds = true.
+Proof. intros rs W E. exact (conj (scan_offset_is_end_of_archive rs W E) eq_refl). Qed.
 Print Assumptions c12_append_offset_scan.
 
-(* a member of 512 bytes behind a PAX-extended one: header blocks 3 and 1; and the
-   reason the rewind matters: from the end of the file the scan sees nothing and
-   the manifests would overwrite the archive from offset 0 *)
-Example c12_append_offset_scan_example :
-  scan_offset [{| m_hdr := 3; m_size := 10 |}; {| m_hdr := 1; m_size := 512 |}] = Ok 3072%Z /\
-  reader_trace 0 [{| m_hdr := 3; m_size := 10 |}; {| m_hdr := 1; m_size := 512 |}] = [(1536, 10); (2560, 512)]%Z /\
-  scan_offset [] = Ok 0%Z.
-Proof. vm_compute. auto. Qed.
+(* the two envelope predicates are decidable (used by the correspondence to select the cases) *)
+Theorem c12_scan_envelope_decides : forall rs,
+  (forallb raw_ok_b rs = true <-> Forall RawOk rs) /\ (ends_ok_b rs = true <-> EndsOk rs).
+Proof.
+  intro rs. split; [|apply ends_ok_b_iff].
+  rewrite forallb_forall, Forall_forall. split; intros H r Hr; apply raw_ok_b_iff, H, Hr.
+Qed.
+Print Assumptions c12_scan_envelope_decides.
 
-Theorem c12_scan_without_rewind_refuted : forall ms,
-  (do env <- scan_loop (S (S (List.length ms)))
-       {| s_rest := []; s_pos := stream_len ms + 1024; s_pend := 0; s_cur := None; s_err := ENone; s_env := [] |};
+(* a member of 512 bytes behind one with a PAX header of 700 bytes (1 + 2 blocks in front
+   of its own header block) and behind a global header; and the reason the rewind matters:
+   from the end of the file the scan sees nothing and the manifests would overwrite the
+   archive from offset 0 *)
+Example c12_append_offset_scan_example :
+  let rs := [{| r_kind := KGlobal; r_size := 30 |}; {| r_kind := KExt; r_size := 700 |}; {| r_kind := KFile; r_size := 10 |};
+             {| r_kind := KHeaderOnly; r_size := 0 |}; {| r_kind := KFile; r_size := 512 |}] in
+  Forall RawOk rs /\ EndsOk rs /\ scan_offset rs = Ok 5120%Z /\
+  reader_trace rs = [(542, 0); (3072, 10); (4096, 0); (4608, 512)]%Z /\
+  scan_offset [] = Ok 0%Z.
+Proof.
+  cbv zeta. split; [apply (proj1 (c12_scan_envelope_decides _)); reflexivity|].
+  split; [apply ends_ok_b_iff; reflexivity|]. vm_compute. auto.
+Qed.
+
+(* outside the envelope (streams MultiWrite never writes, but archive/tar reads): a LAST
+   member of a header-only type whose size field is 100 makes the computed offset
+   overshoot by one block, and a dangling extension header is overwritten *)
+Theorem c12_append_offset_scan_envelope_refuted :
+  scan_offset [{| r_kind := KFile; r_size := 10 |}; {| r_kind := KHeaderOnly; r_size := 100 |}] = Ok 2048%Z /\
+  stream_len [{| r_kind := KFile; r_size := 10 |}; {| r_kind := KHeaderOnly; r_size := 100 |}] = 1536%Z /\
+  scan_offset [{| r_kind := KFile; r_size := 10 |}; {| r_kind := KExt; r_size := 10 |}] = Ok 1024%Z /\
+  stream_len [{| r_kind := KFile; r_size := 10 |}; {| r_kind := KExt; r_size := 10 |}] = 2048%Z.
+Proof. exact scan_offset_header_only_size. Qed.
+Print Assumptions c12_append_offset_scan_envelope_refuted.
+
+Theorem c12_scan_without_rewind_refuted : forall rs,
+  (do env <- scan_loop (S (S (List.length rs)))
+       {| s_rest := []; s_pos := stream_len rs + 1024; s_pend := 0; s_cur := None; s_err := ENone; s_env := [] |};
    Ok (append_offset (ilookup pad_pos_var env) (ilookup pad_size_var env))) = Ok 0%Z.
 Proof. exact no_rewind_offset_zero. Qed.
 Print Assumptions c12_scan_without_rewind_refuted.
+
 
 (* the pre-fix arithmetic (newOffset += 512 - newOffset % 512, unconditionally)
    is refuted by any member ending on a block boundary: kept as the regression
@@ -287,3 +329,204 @@ Theorem c12_bundle_validator_decides : forall plat archs included,
   (List.length archs = List.length included /\ BundleComplete included).
 Proof. exact bundle_complete_tags_iff. Qed.
 Print Assumptions c12_bundle_validator_decides.
+
+(* ---- creation time --------------------------------------------------------------------
+   SOURCE_DATE_EPOCH / the default / the newest package build time all reach
+   BuildImageFromLayers as time.Unix(sec, 0).UTC().  [format_rfc3339 sec] is the model of
+   created.Format(time.RFC3339) on such a time (Go 1.23 appendFormatRFC3339 / appendInt over
+   the proleptic Gregorian calendar; compared with the real function in stage "time").
+   The Spec (Spec/OciTimeSpec.v) gives the calendar in textbook form (leap rule, month
+   lengths, day number = days in earlier years + days in earlier months + day) and
+   [parse_rfc3339] = the instant a well-formed "YYYY-MM-DDTHH:MM:SSZ" denotes.
+
+   c12_civil_date: for EVERY day count z (no bound) the model's year/month/day is a valid
+   calendar date whose day number is z, and days_from_civil inverts it.
+   c12_rfc3339_roundtrip: for every second count whose UTC year is in [0, 9999]
+   (rfc3339_min .. rfc3339_max) the text written denotes exactly that instant, has the
+   fixed 20-character shape (digits / - - T : : Z), and the texts are ordered as strings
+   exactly as the instants are ordered. *)
+Theorem c12_civil_date : forall z y m d, civil_from_days z = (y, m, d) ->
+  valid_date y m d /\ day_number y m d = z /\ days_from_civil y m d = z.
+Proof.
+  intros z y m d E. destruct (civil_from_days_spec z y m d E) as [V N].
+  pose proof (days_from_civil_of_civil z) as I. rewrite E in I. auto.
+Qed.
+Print Assumptions c12_civil_date.
+
+(* what the Spec's calendar is: 1970-01-01 is day 0; a year adds 365 or 366 days *)
+Theorem c12_calendar_spec_characterised :
+  day_number 1970 1 1 = 0%Z /\
+  (forall y, days_before_year (y + 1) = days_before_year y + (if is_leap y then 366 else 365))%Z /\
+  (forall y1 m1 d1 y2 m2 d2, valid_date y1 m1 d1 -> valid_date y2 m2 d2 ->
+     date_lt (y1, m1, d1) (y2, m2, d2) -> (day_number y1 m1 d1 < day_number y2 m2 d2)%Z).
+Proof. split; [reflexivity|]. split; [exact days_before_year_succ|exact day_number_mono]. Qed.
+Print Assumptions c12_calendar_spec_characterised.
+
+Theorem c12_rfc3339_roundtrip : forall s, (rfc3339_min <= s <= rfc3339_max)%Z ->
+  parse_rfc3339 (format_rfc3339 s) = Some s /\
+  rfc3339_utc_shape (format_rfc3339 s) = true /\ String.length (format_rfc3339 s) = 20 /\
+  go_marshal_time s 0 0 = Some (format_rfc3339 s).
+Proof.
+  intros s R. split; [exact (rfc3339_roundtrip s R)|]. destruct (rfc3339_shape s R) as [A B].
+  split; [exact A|]. split; [exact B|exact (marshal_utc_in_range s R)].
+Qed.
+Print Assumptions c12_rfc3339_roundtrip.
+
+Theorem c12_rfc3339_monotone : forall s1 s2, (rfc3339_min <= s1)%Z -> (s2 <= rfc3339_max)%Z -> (s1 < s2)%Z ->
+  str_lt (format_rfc3339 s1) (format_rfc3339 s2).
+Proof. exact rfc3339_monotone. Qed.
+Print Assumptions c12_rfc3339_monotone.
+
+Example c12_rfc3339_examples :
+  format_rfc3339 0 = "1970-01-01T00:00:00Z" /\ format_rfc3339 (-1) = "1969-12-31T23:59:59Z" /\
+  format_rfc3339 951782400 = "2000-02-29T00:00:00Z" /\ format_rfc3339 4107542399 = "2100-02-28T23:59:59Z" /\
+  format_rfc3339 4107542400 = "2100-03-01T00:00:00Z" /\ format_rfc3339 rfc3339_max = "9999-12-31T23:59:59Z" /\
+  format_rfc3339 rfc3339_min = "0000-01-01T00:00:00Z" /\
+  go_format_rfc3339 1700000000 7200 = "2023-11-15T00:13:20+02:00" /\
+  go_marshal_time 1700000000 123456789 0 = Some "2023-11-14T22:13:20.123456789Z".
+Proof. vm_compute. repeat (split; try reflexivity). Qed.
+
+(* Outside [0, 9999] Go's Format does not fail: it writes a year of five or more digits or a
+   negative year.  The label then has neither the shape nor the order, and
+   time.Time.MarshalJSON refuses the time: the config (created, history) cannot be
+   serialised at all - for EXACTLY the second counts outside the range. *)
+Theorem c12_rfc3339_out_of_range :
+  (forall s, go_marshal_time s 0 0 = None <-> ~ (rfc3339_min <= s <= rfc3339_max)%Z) /\
+  format_rfc3339 (rfc3339_max + 1) = "10000-01-01T00:00:00Z" /\
+  format_rfc3339 (rfc3339_min - 1) = "-0001-12-31T23:59:59Z" /\
+  rfc3339_utc_shape (format_rfc3339 (rfc3339_max + 1)) = false /\
+  rfc3339_utc_shape (format_rfc3339 (rfc3339_min - 1)) = false /\
+  parse_rfc3339 (format_rfc3339 (rfc3339_max + 1)) = None /\
+  str_lt (format_rfc3339 (rfc3339_max + 1)) (format_rfc3339 rfc3339_max) /\
+  str_lt (format_rfc3339 (rfc3339_min - 1)) (format_rfc3339 (rfc3339_min - 1 - 31536000)).
+Proof.
+  split; [|exact rfc3339_out_of_range_witnesses].
+  intro s. rewrite marshal_utc. destruct ((rfc3339_min <=? s)%Z && (s <=? rfc3339_max)%Z) eqn:E.
+  - apply andb_true_iff in E. rewrite !Z.leb_le in E. split; [discriminate|tauto].
+  - apply andb_false_iff in E. rewrite !Z.leb_gt in E. split; [lia|reflexivity].
+Qed.
+Print Assumptions c12_rfc3339_out_of_range.
+
+(* ---- command lines -----------------------------------------------------------------------
+   [shlex_split] is the model of github.com/google/shlex Split as pinned in go.mod (the
+   seven-state tokenizer over the runes of the string; compared with the real function in
+   stage "shlex").  BuildImageFromLayers stores exactly its token list as Entrypoint / Cmd and
+   fails when it fails (c12_image_mapping below).
+   c12_shlex_plain: a command line without any of the four special characters (double quote,
+   single quote, backslash, hash) is split at runs of blank / tab / CR / LF - its fields -
+   and [fields] is pinned down by: every field is non-empty and blank-free, and joining
+   such words with single blanks and taking the fields gives the words back.
+   c12_shlex_quote_roundtrip: ANY word list (empty words, blanks, quotes, backslashes, hashes,
+   newlines inside) survives POSIX single-quoting: Split(join(quote w_i)) = [w_i].
+   c12_shlex_errors: Split fails on a quote that is never closed, and cannot fail on a
+   string without quote characters and backslashes. *)
+Theorem c12_shlex_plain : forall s,
+  all_chars (fun c => negb (quoting_char c)) (utf8_sanitize s) = true ->
+  shlex_split s = Some (fields (utf8_sanitize s)) /\
+  Forall plain_word (fields (utf8_sanitize s)) /\
+  (forall ws, Forall plain_word ws -> fields (String.concat " " ws) = ws) /\
+  (ascii_only s = true -> utf8_sanitize s = s).
+Proof.
+  intros s H. split; [exact (lex_split_plain _ H)|]. split; [apply fields_plain|].
+  split; [exact fields_join|exact (sanitize_ascii s)].
+Qed.
+Print Assumptions c12_shlex_plain.
+
+Theorem c12_shlex_quote_roundtrip : forall ws,
+  lex_split (quote_words ws) = Some ws /\
+  (utf8_sanitize (quote_words ws) = quote_words ws -> shlex_split (quote_words ws) = Some ws).
+Proof.
+  intro ws. split; [exact (lex_split_quote_words ws)|].
+  intro V. unfold shlex_split. rewrite V. exact (lex_split_quote_words ws).
+Qed.
+Print Assumptions c12_shlex_quote_roundtrip.
+
+Theorem c12_shlex_errors :
+  (forall u, all_chars (fun c => negb (opens_quote c)) u = true -> lex_split u <> None) /\
+  (forall u cur acc, all_chars (fun c => negb (is_squote c)) u = true -> lex SSq cur acc u = None) /\
+  (forall u cur acc, all_chars (fun c => negb (is_dquote c)) u = true -> lex SDq cur acc u = None).
+Proof.
+  split; [intros u H; apply lex_no_quote_total; auto|].
+  split; [exact lex_unterminated_squote|]. intros u cur acc H. exact (proj1 (lex_unterminated_dquote u cur acc H)).
+Qed.
+Print Assumptions c12_shlex_errors.
+
+Example c12_shlex_examples :
+  shlex_split "/usr/bin/app --flag  value" = Some ["/usr/bin/app"; "--flag"; "value"] /\
+  shlex_split "a 'b c' ""d e"" f\ g" = Some ["a"; "b c"; "d e"; "f g"] /\
+  shlex_split "app # trailing comment" = Some ["app"] /\ shlex_split "a#b" = Some ["a#b"] /\
+  shlex_split "a """" b" = Some ["a"; ""; "b"] /\ shlex_split "   " = Some [] /\
+  shlex_split """unterminated" = None /\ shlex_split "it's broken" = None /\ shlex_split "trailing \" = None /\
+  quote_words ["a b"; "it's"; ""] = "'a b' 'it'\''s' ''" /\
+  utf8_sanitize (quote_words ["a b"; "it's"; ""]) = quote_words ["a b"; "it's"; ""].
+Proof. vm_compute. repeat (split; try reflexivity). Qed.
+
+(* ---- the whole mapping with the splitter and the time printers modelled ------------------
+   build.New runs ImageConfiguration.Validate (entrypoint.type = service-bundle REPLACES
+   entrypoint.command by the s6 supervisor command line), then BuildImageFromLayers builds
+   the config for a creation time time.Unix(sec, 0).UTC() and [nlayers] layers (what
+   `layering` decides) on top of a base image with config [base] and history [bh]
+   (contents.baseimage; empty.Image: both empty).  For every configuration, second count
+   in the serialisable range, architecture, layer count and map orders: either the
+   splitter rejects a command line that has to be split and the build fails, or the config
+   mirrors the declared configuration (ConfigMirrors as in c12_config_mapping, now with
+   shlex := the model of shlex.Split and rfc3339 := the model of Format: entrypoint/cmd ARE
+   the token lists) and the creation time is denoted by the config's created field, by the
+   org.opencontainers.image.created label and by exactly one new history entry per layer,
+   the base image's history being kept in front.  The generated constants
+   service_bundle_type / service_bundle_command occur in validate_ic; the Spec spells them
+   out (declared_ic). *)
+Theorem c12_image_mapping : forall base bh etype ic sec arch nlayers dord eord,
+  merge_into_copies_vcs_url = true ->
+  (rfc3339_min <= sec <= rfc3339_max)%Z ->
+  NoDup (akeys (ic_env ic)) ->
+  Permutation dord (akeys default_env) ->
+  Permutation eord (akeys (with_defaults default_env dord (ic_env ic))) ->
+  match build_image true etype base bh ic (utc_time sec) arch nlayers dord eord with
+  | Ok out => ConfigMirrors shlex_split format_rfc3339 (to_oci_platform arch) base (declared_ic etype ic) sec (io_config out) /\
+              ImageTimeOk bh nlayers sec out
+  | Err => shlex_failed shlex_split (declared_ic etype ic)
+  | _ => False
+  end.
+Proof. exact build_image_mirrors. Qed.
+Print Assumptions c12_image_mapping.
+
+(* Outside the serialisable range (UTC: exactly the years outside [0, 9999], see
+   c12_rfc3339_out_of_range) no image with a malformed `created` is emitted: with at least one
+   layer BuildImageFromLayers fails (go-containerregistry marshals the config, history
+   included, when apko asks for it right after mutate.Append). *)
+Theorem c12_image_unserialisable_time : forall validated etype base bh ic sec arch nlayers dord eord,
+  ~ (rfc3339_min <= sec <= rfc3339_max)%Z -> nlayers <> 0 ->
+  build_image validated etype base bh ic (utc_time sec) arch nlayers dord eord = Err.
+Proof. exact build_image_unserialisable. Qed.
+Print Assumptions c12_image_unserialisable_time.
+
+Theorem c12_service_bundle_entrypoint : forall base bh ic t arch nlayers dord eord out,
+  nonempty (ic_shell_fragment ic) = false ->
+  build_image true service_bundle_type base bh ic t arch nlayers dord eord = Ok out ->
+  oc_entrypoint (io_config out) = spec_service_bundle_words /\
+  service_bundle_type = spec_service_bundle_type /\ service_bundle_command = spec_service_bundle_command.
+Proof.
+  intros base bh ic t arch nlayers dord eord out Hf E.
+  split; [exact (service_bundle_entrypoint base bh ic t arch nlayers dord eord out Hf E)|]. split; reflexivity.
+Qed.
+Print Assumptions c12_service_bundle_entrypoint.
+
+Theorem c12_image_time_validator_decides : forall bh nlayers sec out,
+  image_time_tags bh nlayers sec out = [] <-> ImageTimeOk bh nlayers sec out.
+Proof. exact image_time_tags_iff. Qed.
+Print Assumptions c12_image_time_validator_decides.
+
+Example c12_image_example :
+  exists out,
+    build_image true "service-bundle" empty_config []
+      {| ic_shell_fragment := ""; ic_command := "/ignored --by validate"; ic_cmd := "'two words' three"; ic_workdir := "";
+         ic_run_as := ""; ic_stop_signal := ""; ic_volumes := []; ic_env := []; ic_annotations := [];
+         ic_vcs_url := "https://x/y@abc" |}
+      (utc_time 951782400) "arm64" 3 (akeys default_env) (akeys default_env) = Ok out /\
+    oc_entrypoint (io_config out) = ["/bin/s6-svscan"; "/sv"] /\ oc_cmd (io_config out) = ["two words"; "three"] /\
+    io_created out = Some "2000-02-29T00:00:00Z" /\
+    alookup "org.opencontainers.image.created" (oc_labels (io_config out)) = Some "2000-02-29T00:00:00Z" /\
+    alookup "org.opencontainers.image.revision" (oc_labels (io_config out)) = Some "abc" /\
+    List.map h_comment (io_history out) = [""; ""; ""].
+Proof. eexists. split; [vm_compute; reflexivity|]. repeat (split; try reflexivity). Qed.
